@@ -42,6 +42,10 @@ inductive Stream where
   | osEntropy
   | hashSeed
   | clock
+  /-- mutable objects that live as long as the interpreter and are shared by all searches in it:
+  class-level / module-level dicts and lists, mutable default arguments, `lru_cache`s.  What an
+  EARLIER search stored there is a hidden input of a later one. -/
+  | processState
 deriving DecidableEq, Repr
 
 def Stream.isSeeded : Stream → Bool
@@ -56,12 +60,17 @@ def Stream.name : Stream → String
   | .osEntropy => "osEntropy"
   | .hashSeed => "hashSeed"
   | .clock => "clock"
+  | .processState => "processState"
 
 inductive Instr where
   | draw (site : Nat) (s : Stream)
   | useSeed (k : Nat)
   | fork (parent : Stream) (child : Nat) (advance : Bool)
   | output
+  /-- a memo that is NOT keyed by the seed (`if key not in Cls._cache: Cls._cache[key] = f(rng)`; use
+  `Cls._cache[key]`): when the cell `cache` is empty (`0`) a value is drawn from `src` and stored
+  (as `value + 1`), otherwise the stored value is used and `src` is not touched -/
+  | memo (site : Nat) (cache : Stream) (src : Stream)
 deriving DecidableEq, Repr
 
 /-- the generator algorithm: seed ↦ state, state ↦ (value, next state) -/
@@ -93,6 +102,11 @@ def step (g : Gen) (seed : Nat) (c : St) : Instr → St
     let w := if adv then c.world.set p r.2 else c.world
     { c with world := w.set (.seeded ch) (g.init r.1) }
   | .output => { c with outs := c.hist :: c.outs }
+  | .memo _ cache src =>
+    if c.world cache = 0 then
+      let r := g.next (c.world src)
+      { c with world := (c.world.set src r.2).set cache (r.1 + 1), hist := r.1 :: c.hist }
+    else { c with hist := (c.world cache - 1) :: c.hist }
 
 def run (g : Gen) (seed : Nat) (prog : List Instr) (c : St) : St :=
   prog.foldl (step g seed) c
@@ -101,10 +115,18 @@ def run (g : Gen) (seed : Nat) (prog : List Instr) (c : St) : St :=
 def outputs (g : Gen) (seed : Nat) (prog : List Instr) (w : World) : List (List Nat) :=
   (run g seed prog ⟨w, [], []⟩).outs.reverse
 
+/-- the world that earlier activity of the interpreter leaves behind: each element is one earlier
+search (any program — any class, options, call script — run with its own seed), oldest first.  Seeded
+streams (generator objects still alive), global generators and the process-level state all carry over. -/
+def worldAfter (g : Gen) : List (Nat × List Instr) → World → World
+  | [], w => w
+  | (seed', q) :: rest, w => worldAfter g rest (run g seed' q ⟨w, [], []⟩).world
+
 /-- the instruction touches seeded streams only -/
 def Instr.pure : Instr → Bool
   | .draw _ s => s.isSeeded
   | .fork p _ _ => p.isSeeded
+  | .memo _ _ _ => false
   | _ => true
 
 /-- two worlds agree on every seeded stream (they may differ on every hidden input) -/
@@ -123,6 +145,7 @@ def wfGo : List Nat → List Instr → Bool
   | i, .fork (.seeded p) c _ :: r => decide (p ∈ i) && wfGo (c :: i) r
   | _, .fork _ _ _ :: _ => false
   | i, .output :: r => wfGo i r
+  | _, .memo _ _ _ :: _ => false
 
 /-- the streams initialised after running `p` from `i` -/
 def after : List Nat → List Instr → List Nat
@@ -131,6 +154,7 @@ def after : List Nat → List Instr → List Nat
   | i, .fork _ c _ :: r => after (c :: i) r
   | i, .draw _ _ :: r => after i r
   | i, .output :: r => after i r
+  | i, .memo _ _ _ :: r => after i r
 
 /-- closed program: needs nothing initialised beforehand -/
 def WellInit (p : List Instr) : Bool := wfGo [] p
@@ -327,6 +351,11 @@ def searchProgram (o : Opts) (ops : List Op) : List Instr := initProgram o ++ sc
 (what the scan reports as `rng-ctor-noseed`, out of the property's scope) -/
 def unseededInit : List Instr := [.fork .osEntropy 0 true]
 
+/-- an initial design whose expensive optimisation is memoised in a class-level dict keyed by its
+shape only (not by the generator): `fork 0 → 4` (the design seed), then the memo on the process-level cell -/
+def memoDesign : List Instr :=
+  [.useSeed 0, .fork (.seeded 0) 4 true, .memo 102 .processState (.seeded 4), .output]
+
 /-- pre-repair `gaussian_mes`: `norm.rvs(loc, scale)` without `random_state` -/
 def mesPreFix : List Instr := [.useSeed 0, .draw 104 .scipyGlobal, .output]
 
@@ -354,6 +383,13 @@ def modelSites : List ModelSite := [
   ⟨0, "Optimizer.__init__", "rng-method", "self.rng.randint(", 2, "fork r → 2 (cook_estimator), fork r → 4 (initial design)"⟩,
   ⟨0, "Optimizer.__init__", "seed-call", "config_space.seed(self.rng.get_state()[1][0])", 1, "fork r → 3 without advancing r"⟩,
   ⟨0, "Optimizer.__init__", "rng-method", "self.rng.get_state()", 1, "the peek of the previous row"⟩,
+  ⟨102, "Lhs.generate", "crs", "check_random_state(random_state)", 1, "initial design (lhs) drawn from generator 4 and from nothing else"⟩,
+  ⟨102, "Sobol.generate", "crs", "check_random_state(random_state)", 1, "initial design (sobol) drawn from generator 4"⟩,
+  ⟨102, "Halton.generate", "crs", "check_random_state(random_state)", 1, "initial design (halton) drawn from generator 4"⟩,
+  ⟨102, "Halton.generate", "rng-method", "rng.randint(self.min_skip", 1, "the halton skip"⟩,
+  ⟨102, "Hammersly.generate", "crs", "check_random_state(random_state)", 1, "initial design (hammersly) drawn from generator 4"⟩,
+  ⟨102, "Grid.generate", "crs", "check_random_state(random_state)", 1, "initial design (grid) drawn from generator 4"⟩,
+  ⟨102, "Grid.generate", "rng-method", "rng.shuffle(h)", 1, "the order of the grid points"⟩,
   ⟨0, "Space.rvs", "crs", "check_random_state(random_state)", 1, "generator r handed to Space.rvs"⟩,
   ⟨0, "Space.rvs", "rng-method", "rng.randint(", 1, "fork r → 10+d for every dimension"⟩,
   ⟨0, "Space.rvs", "rng-ctor", "RandomState(random_states[i])", 1, "the per-dimension generators 10+d"⟩,
@@ -387,6 +423,7 @@ def coreFuncs : List String := [
   "RegularizedEvolution.__init__", "RegularizedEvolution._ask", "Optimizer.__init__", "Optimizer.ask",
   "Optimizer._ask_random_points", "Optimizer._tell", "Optimizer.copy", "Optimizer.update_next", "Optimizer._moo_scalarize",
   "MoScalarFunction.__init__",
+  "Lhs.generate", "Sobol.generate", "Halton.generate", "Hammersly.generate", "Grid.generate",
   "Space.rvs", "_sample_dimension", "gaussian_mes", "_gaussian_acquisition", "MoScalarFunction.update_weight"]
 
 /-- sites in core functions that the hand model deliberately leaves out (func, pattern, why) -/
